@@ -1,16 +1,19 @@
 (* C01 -- CTMC jump rates are the Levy-measure masses of the grid cells.  Only statements; proofs in Proofs/C01_Chain.v,
-   Proofs/C01_Chain2d.v (dimension 2) and Proofs/C01_Chain3d.v (dimension 3).
+   Proofs/C01_Chain2d.v (dimension 2), Proofs/C01_Chain3d.v (dimension 3), Proofs/C01_GenTie.v (generated loops), Proofs/C01_Factory.v
+   (ALIAS / TABLE path, composed with C02) and Proofs/C01_ChainR.v (over R, composed with C09).
    Model: Model/Chain.v, Model/Chain3d.v (samplingfactory.create_q_vector / compute_intensity_of_jumps, TruncatedLevyMeasure) over
    Model/Grid.v; `_truncated_interval` is the py2coq-generated Gen/GenC01Trunc.v.
    The theorems are stated inside a Section for an ARBITRARY interval mass `mass a b` (= LevyMeasure.integrate) that is
    additive and non-negative ON INTERVALS NOT CONTAINING THE ORIGIN (so that infinite-activity measures qualify), over Q
-   (see THEOREM_NOTES: the link to C09's real-valued closed forms is NOT formal), and for an arbitrary `mid` (= grid.middle
+   (the link to C09's real-valued closed forms IS formal since wave 6: see the part OVER THE REALS at the end of this file:
+   C01_hem_chain_rates, C01_merton_chain_rates, C01_vg_chain_rates), and for an arbitrary `mid` (= grid.middle
    at one fixed level) with the stated properties; only the arithmetic mean `amid` is a PROVED instance of `mid`:
    mid_between is required of ALL x < y, which CTMCGridProbabilityStep.middle violates (middle(-0.001, 0) = -h/2), so the
    probability-step grid is covered by the per-state oracle of props/C01.py, not by these theorems. *)
 From Coq Require Import ZArith QArith List.
 From RV Require Import Base.QB Model.Grid Gen.GenC01Trunc Model.Chain Model.Chain3d Proofs.C13_Grid Proofs.C01_Chain Proofs.C01_Chain2d
-  Proofs.C01_Chain3d.
+  Proofs.C01_Chain3d Gen.GenTieChain Proofs.Tie_Chain Proofs.C01_GenTie Gen.GenTieChain2d Proofs.Tie_Chain2d.
+From RV Require Model.StepLaw Model.Bst Model.Alias Model.Table Model.Factory Proofs.C02_Alias Proofs.C02_Table Proofs.C01_Factory.
 Import ListNotations.
 Open Scope Q_scope.
 
@@ -261,6 +264,241 @@ Example C01_nonvacuous_3d :
   /\ Qeq_bool (q_entry3 amid (step_mass3 ps) xs ys zs 2 1 2 1) 0 = true.
 Proof. vm_compute. repeat split. Qed.
 
+(* ---------------- the loops REGENERATED FROM THE SOURCE (Gen/GenTieChain.v, loop plug-in of py2coq; equality proofs Proofs/Tie_Chain.v):
+   create_q_vector of samplingfactory.py (np.zeros + enumerate loop + conditional store) and CTMCGrid.left_point / right_point /
+   middle(float, float) of spatial.py ARE the hand models the theorems above are about (Python ints are Z in the generated code) *)
+Theorem C01_gen_create_q_vector_is_model : forall (mass mid : Q -> Q -> Q) xs (o : nat),
+  GenTieChain.create_q_vector mass mid xs (Z.of_nat o) = Chain.q_vector mid mass xs o.
+Proof. exact gen_create_q_vector_eq_model. Qed.
+
+(* compute_intensity_of_jumps specialised to a 1-d model (itertools.product / next / block loop unrolled by the plug-in) *)
+Theorem C01_gen_compute_intensity_of_jumps_1d_is_model : forall (mass mid : Q -> Q -> Q) xs (o : nat),
+  GenTieChain.compute_intensity_of_jumps_1d mass mid xs (Z.of_nat o) = Chain.intensity1 mid mass xs o.
+Proof. exact gen_compute_intensity_of_jumps_1d_eq_model. Qed.
+
+Theorem C01_gen_cell_points_are_model : forall xs (k : nat),
+  GenTieChain.left_point xs (Z.of_nat k) = Grid.left_point xs k
+  /\ GenTieChain.right_point xs (Z.of_nat k) = Grid.right_point xs k
+  /\ (forall x y, GenTieChain.middle x y = Grid.amid x y).
+Proof. intros xs k. split; [apply gen_left_point_eq_model|]. split; [apply gen_right_point_eq_model|exact gen_middle_eq_model]. Qed.
+
+(* composed: the chain theorem stated ABOUT THE GENERATED create_q_vector / middle (what MarkovChainProcess builds: measure truncated
+   to (axis[0], axis[-1])): one entry per state, entries >= 0, each non-origin entry the mass of its cell, sum = reported intensity *)
+Theorem C01_gen_chain_rates : forall (mass : Q -> Q -> Q),
+  (forall a b c, a <= b -> b <= c -> (c < 0 \/ 0 < a) -> mass a c == mass a b + mass b c) ->
+  (forall a b, a <= b -> (b < 0 \/ 0 < a) -> 0 <= mass a b) ->
+  (forall a a' b b', a == a' -> b == b' -> mass a b == mass a' b') ->
+  forall xs (o : nat) h, admissible xs o h ->
+  let m := tmass mass (headq xs) (lastq xs) in
+  let q := GenTieChain.create_q_vector m GenTieChain.middle xs (Z.of_nat o) in
+  length q = length xs
+  /\ qsum q == GenTieChain.compute_intensity_of_jumps_1d m GenTieChain.middle xs (Z.of_nat o)
+  /\ (forall k, (k < length xs)%nat -> 0 <= nthq q k)
+  /\ (forall k, (k < length xs)%nat -> k <> o -> nthq q k == mass (cell_lo amid xs k) (cell_hi amid xs k)).
+Proof. exact gen_chain_rates. Qed.
+
+(* non-vacuity of the three: the generated loop run on the chain of C01_nonvacuous gives the hand model's vector, which is not zero *)
+Example C01_gen_nonvacuous :
+  let ps := [(-2, 0, 3); (0, 3, 3#2)] in let xs := [-2; -1; -(1#2); 0; 1#2; 2; 3] in
+  GenTieChain.create_q_vector (chain_mass ps xs) GenTieChain.middle xs 3 = chain_q_vector ps xs 3
+  /\ map Qred (GenTieChain.create_q_vector (chain_mass ps xs) GenTieChain.middle xs 3) = [3#2; 9#4; 3#2; 0; 3#2; 15#8; 3#4]
+  /\ Qred (GenTieChain.compute_intensity_of_jumps_1d (chain_mass ps xs) GenTieChain.middle xs 3) = 75#8
+  /\ admissibleb xs 3 (1#2) = true /\ forallb (fun p => Qle_bool 0 (snd p)) ps = true.
+Proof. vm_compute. repeat split. Qed.
+
+(* compute_intensity_of_jumps for a 2-d (copula) model regenerated from the source (Gen/GenTieChain2d.v: the 3 x 3 blocks of
+   itertools.product minus the first, unrolled by the plug-in) is the hand model intensity2 ... *)
+Theorem C01_gen_compute_intensity_of_jumps_2d_is_model : forall (mass2 : Q * Q -> Q * Q -> Q) (mid : Q -> Q -> Q) xs ys (o : nat),
+  GenTieChain2d.compute_intensity_of_jumps_2d mass2 mid xs ys (Z.of_nat o) == Chain.intensity2 mid mass2 xs ys o.
+Proof. exact gen_compute_intensity_of_jumps_2d_eq_model. Qed.
+
+(* ... hence the rates of all non-origin states of a 2-d product grid sum to the GENERATED intensity (arithmetic-mean middle, any box
+   mass additive per coordinate away from the origin, any two admissible axes sharing the origin index) *)
+Theorem C01_gen_sum_rates_is_intensity_2d : forall (mass2 : Q * Q -> Q * Q -> Q),
+  (forall a1 b1 c1 y1 y2, a1 <= b1 -> b1 <= c1 -> avoids (a1, y1) (c1, y2) ->
+     mass2 (a1, y1) (c1, y2) == mass2 (a1, y1) (b1, y2) + mass2 (b1, y1) (c1, y2)) ->
+  (forall x1 x2 a2 b2 c2, a2 <= b2 -> b2 <= c2 -> avoids (x1, a2) (x2, c2) ->
+     mass2 (x1, a2) (x2, c2) == mass2 (x1, a2) (x2, b2) + mass2 (x1, b2) (x2, c2)) ->
+  (forall a1 a2 b1 b2 a1' a2' b1' b2', a1 == a1' -> a2 == a2' -> b1 == b1' -> b2 == b2' ->
+     mass2 (a1, a2) (b1, b2) == mass2 (a1', a2') (b1', b2')) ->
+  forall xs ys (o : nat) hx hy, admissible xs o hx -> admissible ys o hy ->
+  qsum2 (q_matrix2 amid mass2 xs ys o) == GenTieChain2d.compute_intensity_of_jumps_2d mass2 GenTieChain.middle xs ys (Z.of_nat o).
+Proof. exact gen_sum_rates_is_intensity_2d. Qed.
+
+(* ---------------- the ALIAS / TABLE rate path of create_sampling_method (wave 6), COMPOSED WITH C02: C02's sampler theorems assume a
+   probability vector; for the vector the factory builds from an admissible chain (Model/Factory.v vec_jump = create_vec_jump_matrix of
+   create_q_vector and the intensity) that assumption is a theorem ... *)
+Section Factory.
+  Import Model.StepLaw Model.Bst Model.Alias Model.Table Model.Factory Proofs.C02_Alias Proofs.C02_Table Proofs.C01_Factory.
+  Variable mid : Q -> Q -> Q.
+  Hypothesis mid_between : forall x y, x < y -> x < mid x y /\ mid x y < y.
+  Hypothesis mid_refl : forall x, ~ x == 0 -> mid x x == x.
+  Hypothesis mid_proper : forall x x' y y', x == x' -> y == y' -> mid x y == mid x' y'.
+  Variable mass : Q -> Q -> Q.
+  Hypothesis mass_add : forall a b c, a <= b -> b <= c -> (c < 0 \/ 0 < a) -> mass a c == mass a b + mass b c.
+  Hypothesis mass_pos : forall a b, a <= b -> (b < 0 \/ 0 < a) -> 0 <= mass a b.
+  Hypothesis mass_proper : forall a a' b b', a == a' -> b == b' -> mass a b == mass a' b'.
+
+  Theorem C01_factory_vector_is_distribution : forall xs o h, admissible xs o h ->
+    let lam := intensity1 mid mass xs o in
+    0 < lam ->
+    let p := vec_jump (q_vector mid mass xs o) lam o in
+    length p = length xs /\ (1 <= length p)%nat /\ nonneg p /\ StepLaw.qsum p == 1 /\ nth o p 0 = 0
+    /\ (forall k, (k < length xs)%nat -> k <> o -> nth k p 0 == mass (cell_lo mid xs k) (cell_hi mid xs k) / lam).
+  Proof. intros xs o h. apply (factory_vector_is_distribution mid); assumption. Qed.
+
+  (* ... and so the ALIAS sampler (create_alias tables J, q) and the TABLE sampler (256 slots + embedded alias) of the chain give state k
+     exactly the probability (Levy mass of the cell of k) / (intensity of jumps), the origin 0, and ALIAS never returns the origin *)
+  Theorem C01_alias_table_chain_law : forall xs o h, admissible xs o h ->
+    let lam := intensity1 mid mass xs o in
+    0 < lam ->
+    let p := vec_jump (q_vector mid mass xs o) lam o in
+    let K := length p in let J := fst (create_alias p) in let q := snd (create_alias p) in
+    (forall k, (k < length xs)%nat -> k <> o ->
+        len_of (Z.of_nat k) (alias_segs K q J) == mass (cell_lo mid xs k) (cell_hi mid xs k) / lam
+        /\ table_mass (create_table p) k == mass (cell_lo mid xs k) (cell_hi mid xs k) / lam)
+    /\ len_of (Z.of_nat o) (alias_segs K q J) == 0 /\ table_mass (create_table p) o == 0
+    /\ create_table p <> TableError
+    /\ (forall u, 0 <= u -> u < 1 -> (alias_draw K q J u < length xs)%nat /\ alias_draw K q J u <> o).
+  Proof. intros xs o h. apply (alias_table_chain_law mid); assumption. Qed.
+End Factory.
+
+(* non-vacuity: the chain of C01_nonvacuous has intensity 75/8 > 0; its factory vector sums to 1 and the alias tables built from it give
+   state 1 (cell [-3/2, -3/4], mass 9/4) the probability (9/4)/(75/8) = 6/25 *)
+Example C01_factory_nonvacuous_values :
+  let ps := [(-2, 0, 3); (0, 3, 3#2)] in let xs := [-2; -1; -(1#2); 0; 1#2; 2; 3] in
+  let p := Factory.vec_jump (chain_q_vector ps xs 3) (chain_intensity ps xs 3) 3 in
+  admissibleb xs 3 (1#2) = true /\ Qle_bool (chain_intensity ps xs 3) 0 = false
+  /\ Qeq_bool (StepLaw.qsum p) 1 = true /\ Qeq_bool (nth 1 p 0) (6 # 25) = true /\ Qeq_bool (nth 3 p 0) 0 = true
+  /\ Qeq_bool (StepLaw.len_of 1 (C02_Alias.alias_segs (length p) (snd (Alias.create_alias p)) (fst (Alias.create_alias p)))) (6 # 25) = true
+  /\ Qeq_bool (C02_Table.table_mass (Table.create_table p) 1) (6 # 25) = true.
+Proof. vm_compute. repeat split. Qed.
+
+(* ================= OVER THE REALS, COMPOSED WITH C09 (wave 6): Model/ChainR.v is the real-number twin of Model/Chain.v; Gen/GenC01ChainR.v
+   regenerates left_point / right_point / middle / create_q_vector over R from the source on every run; the truncated measure is
+   Model/LevyClosedForms.v's truncated_integrate around the generated truncated_interval (the objects of C09).  In the theorems below
+   the abstract `mass` is GONE: density and closed form are the py2coq-generated definitions of the model files and the link between
+   them is C09's integral theorem. *)
+From Coq Require Import Reals.
+From Coquelicot Require Import Coquelicot.
+From RV Require Import Base.RB Base.RSpecial Gen.GenC09Trunc Gen.GenC09Hem Gen.GenC09Merton Gen.GenC09Vg Model.LevyClosedForms Model.ChainR
+  Gen.GenC01ChainR Proofs.C01_ChainR.
+Close Scope Q_scope.
+Open Scope R_scope.
+
+(* the 1-d chain theorems replayed over R for an abstract mass additive / non-negative away from the origin and any middle *)
+Theorem C01_chain_R : forall (mid mass : R -> R -> R),
+  (forall x y, x < y -> x < mid x y /\ mid x y < y) -> (forall x, x <> 0 -> mid x x = x) ->
+  (forall a b c, a <= b -> b <= c -> (c < 0 \/ 0 < a) -> mass a c = mass a b + mass b c) ->
+  (forall a b, a <= b -> (b < 0 \/ 0 < a) -> 0 <= mass a b) ->
+  forall xs o h, admissibleR xs o h ->
+  rsum (q_vectorR mid mass xs o) = intensity1R mid mass xs o
+  /\ (forall k, (k < length xs)%nat -> 0 <= q_entryR mid mass xs o k)
+  /\ (forall k, (k < length xs)%nat -> cell_loR mid xs k <= nthR xs k <= cell_hiR mid xs k)
+  /\ (forall k, (k + 1 < length xs)%nat -> cell_hiR mid xs k = cell_loR mid xs (k + 1))
+  /\ cell_loR mid xs 0 = headR xs /\ cell_hiR mid xs (length xs - 1) = lastR xs
+  /\ cell_hiR mid xs (o - 1) = h_leftR mid xs o /\ cell_loR mid xs (o + 1) = h_rightR mid xs o
+  /\ h_leftR mid xs o < 0 /\ 0 < h_rightR mid xs o.
+Proof. exact chain_R. Qed.
+
+(* the generated loop over R is the hand model *)
+Theorem C01_gen_create_q_vector_R_is_model : forall (mass mid : R -> R -> R) xs (o : nat),
+  GenC01ChainR.create_q_vector mass mid xs (Z.of_nat o) = q_vectorR mid mass xs o.
+Proof. exact genR_create_q_vector_eq_model. Qed.
+
+Theorem C01_gen_compute_intensity_of_jumps_1d_R_is_model : forall (mass mid : R -> R -> R) xs (o : nat),
+  GenC01ChainR.compute_intensity_of_jumps_1d mass mid xs (Z.of_nat o) = intensity1R mid mass xs o.
+Proof. exact genR_compute_intensity_of_jumps_1d_eq_model. Qed.
+
+(* ANY density nu >= 0 whose integral over the origin-free sub-intervals [a,b] of the truncation range is the closed form F a b: the
+   vector the generated create_q_vector builds from TruncatedLevyMeasure(F, (x_0, x_n)).integrate has one entry per state, the entry
+   of every non-origin state is the INTEGRAL OF THE DENSITY OVER ITS CELL, the origin entry is 0, all entries are >= 0, they sum to
+   compute_intensity_of_jumps, whose two terms are the integrals of the density over [x_0, h_left] and [h_right, x_n] *)
+Theorem C01_density_chain_rates : forall (nu : R -> R) (F : R -> R -> R) xs (o : nat) h, admissibleR xs o h ->
+  (forall a b, headR xs <= a -> a <= b -> b <= lastR xs -> (b < 0 \/ 0 < a) -> is_RInt nu a b (F a b)) ->
+  (forall x, 0 <= nu x) ->
+  let m := truncated_integrate F (headR xs) (lastR xs) in
+  let q := GenC01ChainR.create_q_vector m GenC01ChainR.middle xs (Z.of_nat o) in
+  length q = length xs
+  /\ (forall k, (k < length xs)%nat -> k <> o -> is_RInt nu (cell_loR amidR xs k) (cell_hiR amidR xs k) (nthR q k))
+  /\ nthR q o = 0
+  /\ (forall k, (k < length xs)%nat -> 0 <= nthR q k)
+  /\ rsum q = GenC01ChainR.compute_intensity_of_jumps_1d m GenC01ChainR.middle xs (Z.of_nat o)
+  /\ rsum q = m (headR xs) (h_leftR amidR xs o) + m (h_rightR amidR xs o) (lastR xs)
+  /\ is_RInt nu (headR xs) (h_leftR amidR xs o) (m (headR xs) (h_leftR amidR xs o))
+  /\ is_RInt nu (h_rightR amidR xs o) (lastR xs) (m (h_rightR amidR xs o) (lastR xs)).
+Proof. exact density_chain_rates. Qed.
+
+(* HEM (Kou): hem_nu / hem_integrate are GENERATED from hem.py; no hypothesis on the mass is left *)
+Theorem C01_hem_chain_rates : forall INF lam p e1 e2 xs (o : nat) h,
+  0 <= lam -> 0 <= p <= 1 -> 0 < e1 -> 0 < e2 -> admissibleR xs o h ->
+  let nu := hem_nu lam p e1 e2 in
+  let m := truncated_integrate (hem_integrate INF lam p e1 e2) (headR xs) (lastR xs) in
+  let q := GenC01ChainR.create_q_vector m GenC01ChainR.middle xs (Z.of_nat o) in
+  length q = length xs
+  /\ (forall k, (k < length xs)%nat -> k <> o -> is_RInt nu (cell_loR amidR xs k) (cell_hiR amidR xs k) (nthR q k))
+  /\ nthR q o = 0
+  /\ (forall k, (k < length xs)%nat -> 0 <= nthR q k)
+  /\ rsum q = GenC01ChainR.compute_intensity_of_jumps_1d m GenC01ChainR.middle xs (Z.of_nat o)
+  /\ rsum q = m (headR xs) (h_leftR amidR xs o) + m (h_rightR amidR xs o) (lastR xs)
+  /\ is_RInt nu (headR xs) (h_leftR amidR xs o) (m (headR xs) (h_leftR amidR xs o))
+  /\ is_RInt nu (h_rightR amidR xs o) (lastR xs) (m (h_rightR amidR xs o) (lastR xs)).
+Proof. exact hem_chain_rates. Qed.
+
+(* Merton: merton_nu / merton_integrate GENERATED from merton.py *)
+Theorem C01_merton_chain_rates : forall lam mu sj xs (o : nat) h,
+  0 <= lam -> 0 < sj -> admissibleR xs o h ->
+  let nu := merton_nu lam mu sj in
+  let m := truncated_integrate (merton_integrate lam mu sj) (headR xs) (lastR xs) in
+  let q := GenC01ChainR.create_q_vector m GenC01ChainR.middle xs (Z.of_nat o) in
+  length q = length xs
+  /\ (forall k, (k < length xs)%nat -> k <> o -> is_RInt nu (cell_loR amidR xs k) (cell_hiR amidR xs k) (nthR q k))
+  /\ nthR q o = 0
+  /\ (forall k, (k < length xs)%nat -> 0 <= nthR q k)
+  /\ rsum q = GenC01ChainR.compute_intensity_of_jumps_1d m GenC01ChainR.middle xs (Z.of_nat o)
+  /\ rsum q = m (headR xs) (h_leftR amidR xs o) + m (h_rightR amidR xs o) (lastR xs)
+  /\ is_RInt nu (headR xs) (h_leftR amidR xs o) (m (headR xs) (h_leftR amidR xs o))
+  /\ is_RInt nu (h_rightR amidR xs o) (lastR xs) (m (h_rightR amidR xs o) (lastR xs)).
+Proof. exact merton_chain_rates. Qed.
+
+(* VG, INFINITE activity: vg_nu / vg_integrate GENERATED from vg.py (exp1 = E1c c0); INF = the float-infinity sentinel of the code,
+   beyond the truncation range *)
+Theorem C01_vg_chain_rates : forall INF c lm lp c0 xs (o : nat) h,
+  0 <= c -> 0 < lm -> 0 < lp -> admissibleR xs o h -> - INF < headR xs -> lastR xs < INF ->
+  let nu := vg_nu c lm lp in
+  let m := truncated_integrate (vg_integrate (E1c c0) INF c lm lp) (headR xs) (lastR xs) in
+  let q := GenC01ChainR.create_q_vector m GenC01ChainR.middle xs (Z.of_nat o) in
+  length q = length xs
+  /\ (forall k, (k < length xs)%nat -> k <> o -> is_RInt nu (cell_loR amidR xs k) (cell_hiR amidR xs k) (nthR q k))
+  /\ nthR q o = 0
+  /\ (forall k, (k < length xs)%nat -> 0 <= nthR q k)
+  /\ rsum q = GenC01ChainR.compute_intensity_of_jumps_1d m GenC01ChainR.middle xs (Z.of_nat o)
+  /\ rsum q = m (headR xs) (h_leftR amidR xs o) + m (h_rightR amidR xs o) (lastR xs)
+  /\ is_RInt nu (headR xs) (h_leftR amidR xs o) (m (headR xs) (h_leftR amidR xs o))
+  /\ is_RInt nu (h_rightR amidR xs o) (lastR xs) (m (h_rightR amidR xs o) (lastR xs)).
+Proof. exact vg_chain_rates. Qed.
+
+(* create_vec_jump_matrix (the vector create_sampling_method hands to ALIAS / TABLE / BINARYSEARCHTREE / HUFFMANNTREE): for a rate vector
+   with zero origin entry, entries >= 0 and lam = their sum > 0 (what the theorems above establish for q and the intensity) it is a
+   probability vector: entries q_k / lam >= 0, origin entry 0, sum exactly 1 *)
+Theorem C01_jump_vector_is_distribution : forall q (o : nat) lam,
+  nthR q o = 0 -> (forall k, (k < length q)%nat -> 0 <= nthR q k) -> lam = rsum q -> 0 < lam ->
+  let pv := jump_vectorR q o lam in
+  length pv = length q /\ rsum pv = 1 /\ nthR pv o = 0
+  /\ (forall k, (k < length q)%nat -> 0 <= nthR pv k /\ nthR pv k = nthR q k / lam).
+Proof. exact jump_vector_is_distribution. Qed.
+
+(* non-vacuity: an admissible real axis with UNEQUAL gaps; on it the HEM rate of state 3 (cell [1/2, 2]) is the closed form
+   1/2 (exp(-1/2) - exp(-2)) > 0, and the hypotheses of the VG theorem are met with INF = 10 *)
+Example C01_hem_nonvacuous :
+  let xs := [-2; -1; 0; 1; 3] in
+  admissibleR xs 2 1 /\ - 10 < headR xs /\ lastR xs < 10
+  /\ cell_loR amidR xs 3 = 1 / 2 /\ cell_hiR amidR xs 3 = 2
+  /\ nthR (GenC01ChainR.create_q_vector (truncated_integrate (hem_integrate 10 1 (1/2) 1 1) (headR xs) (lastR xs)) GenC01ChainR.middle xs 2) 3
+     = 1 / 2 * (exp (- (1 / 2)) - exp (- 2))
+  /\ 0 < 1 / 2 * (exp (- (1 / 2)) - exp (- 2)).
+Proof. exact hem_nonvacuous. Qed.
+
 Print Assumptions C01_cells_tile.
 Print Assumptions C01_cells_avoid_origin.
 Print Assumptions C01_rates_nonneg.
@@ -281,3 +519,22 @@ Print Assumptions C01_step_mass_is_a_measure.
 Print Assumptions C01_nonvacuous.
 Print Assumptions C01_nonvacuous_2d.
 Print Assumptions C01_nonvacuous_3d.
+Print Assumptions C01_gen_create_q_vector_is_model.
+Print Assumptions C01_gen_compute_intensity_of_jumps_1d_is_model.
+Print Assumptions C01_gen_cell_points_are_model.
+Print Assumptions C01_gen_chain_rates.
+Print Assumptions C01_gen_nonvacuous.
+Print Assumptions C01_gen_compute_intensity_of_jumps_2d_is_model.
+Print Assumptions C01_gen_sum_rates_is_intensity_2d.
+Print Assumptions C01_factory_vector_is_distribution.
+Print Assumptions C01_alias_table_chain_law.
+Print Assumptions C01_factory_nonvacuous_values.
+Print Assumptions C01_chain_R.
+Print Assumptions C01_gen_create_q_vector_R_is_model.
+Print Assumptions C01_gen_compute_intensity_of_jumps_1d_R_is_model.
+Print Assumptions C01_density_chain_rates.
+Print Assumptions C01_hem_chain_rates.
+Print Assumptions C01_merton_chain_rates.
+Print Assumptions C01_vg_chain_rates.
+Print Assumptions C01_jump_vector_is_distribution.
+Print Assumptions C01_hem_nonvacuous.
